@@ -22,4 +22,6 @@ CASES = [
          new="        if self.to_seconds(duetime) < 0:\n            return self.schedule(action)\n\n        time: typing.AbsoluteTime = self.add(self._clock, duetime)\n        return self.schedule_absolute(time, action, state=state)")]),
     dict(expect="fire", desc="TimeoutScheduler.schedule_relative zero-delay path drops the state", names="P6-state-forwarded", edits=[dict(file="reactivex/scheduler/timeoutscheduler.py",
          old="            return self.schedule(action, state)", new="            return self.schedule(action)")]),
+    dict(expect="fire", desc="seed C35-r4/3: timer(d, p) advances its due time from now instead of the previous due time", names="P7-grid", edits=[dict(file="reactivex/observable/timer.py",
+         old="                dt = dt + scheduler.to_timedelta(p)\n                if dt <= now:", new="                dt = now + scheduler.to_timedelta(p)\n                if dt <= now:")]),
 ]
